@@ -1,6 +1,7 @@
 package rules
 
 import (
+	"fmt"
 	"go/token"
 	"strings"
 
@@ -104,4 +105,121 @@ func c38Unambiguous(c *eng.Ctx, parsed map[string]map[string]ssa.Value) {
 	c.Check("R5", "SSH/zero-port-unambiguous", ff.Pos(), parserGuards || formatterLooksAtPath,
 		"an explicit zero port cannot silently disappear: the parser refuses it, or the formatter prints it when the path could be read as a port")
 	c.Floor("R5", 3)
+}
+
+// c38Delimited (C38.R6): formatSSH prints the host verbatim and follows it with
+// ':'. The text therefore reads back as the same host only if a parsed host
+// can never contain ':' — structurally: every value parseSCPSSH can return as
+// Host is "" (rejected later) or the prefix raw[:i] cut at the range index i of a
+// loop iteration that saw r == ':' (the FIRST colon, since the loop breaks
+// there). A second source for the host (say, the inside of a bracketed literal,
+// colons included) parses but does not survive formatting.
+func c38Delimited(c *eng.Ctx, parsed map[string]map[string]ssa.Value) {
+	host := parsed["SSH"]["Host"]
+	if host == nil {
+		c.Problem("R6", "SSH host component not found")
+		return
+	}
+	n := 0
+	seen := map[ssa.Value]bool{}
+	var visit func(v ssa.Value, depth int)
+	visit = func(v ssa.Value, depth int) {
+		v = eng.Unwrap(v)
+		if seen[v] || depth > 4 {
+			return
+		}
+		seen[v] = true
+		switch x := v.(type) {
+		case *ssa.Phi:
+			for _, e := range x.Edges {
+				visit(e, depth+1)
+			}
+		case *ssa.Const:
+			// "" — the «no host found» value, rejected by the emptiness test (R4)
+		case *ssa.Slice:
+			n++
+			atColon := false
+			for _, a := range eng.Guards(x) {
+				if b, ok := a.V.(*ssa.BinOp); ok && a.Pos && b.Op == token.EQL && constIs(b.Y, ':') {
+					atColon = true
+				}
+			}
+			// equivalent: raw[:strings.IndexByte(raw, ':')] (first occurrence by definition)
+			if call, ok := eng.Unwrap(x.High).(*ssa.Call); ok && len(call.Call.Args) == 2 && eng.Render(call.Call.Args[0]) == eng.Render(x.X) {
+				switch eng.CalleeName(call) {
+				case "strings.IndexByte", "strings.IndexRune":
+					atColon = constIs(call.Call.Args[1], ':')
+				case "strings.Index":
+					atColon = eng.Render(call.Call.Args[1]) == `":"`
+				}
+			}
+			c.Check("R6", "SSH/host-stops-at-first-colon", x.Pos(), x.Low == nil && x.High != nil && atColon, "the host is the text in front of the first ':' (it can contain no ':' itself, so host + ':' reads back as the same host)", eng.Render(x)[:min(120, len(eng.Render(x)))])
+		default:
+			n++
+			c.Check("R6", "SSH/host-stops-at-first-colon", v.Pos(), false, "the host is the text in front of the first ':'", eng.Render(v)[:min(120, len(eng.Render(v)))])
+		}
+	}
+	visit(host, 0)
+	if n == 0 {
+		c.Problem("R6", "SSH parser: no edge assigns the host from the text")
+	}
+}
+
+// c38DockerPathStrip (C38.R7): parseDocker drops the first byte of a
+// synchronization path in exactly the two cases for which formatDocker puts a
+// '/' back — a home-relative path (`/~…`, second byte '~') and a Windows path
+// (`/C:\…`, isWindowsPath of the remainder) — and drops the split character of a
+// forwarding endpoint (formatDocker re-adds ':'). Any other shortening of the
+// path (collapsing slashes, trimming, cleaning) is not undone by the formatter:
+// the formatted text is then parsed a second time by those same two tests and
+// can come back as a different path.
+func c38DockerPathStrip(c *eng.Ctx, parsed map[string]map[string]ssa.Value) {
+	path := parsed["Docker"]["Path"]
+	if path == nil {
+		c.Problem("R7", "Docker path component not found")
+		return
+	}
+	kinds, _ := c.P.ConstsOfType(urlPkg, "Kind")
+	n := 0
+	seen := map[ssa.Value]bool{}
+	var visit func(v ssa.Value, depth int)
+	visit = func(v ssa.Value, depth int) {
+		v = eng.Unwrap(v)
+		if seen[v] || depth > 8 {
+			return
+		}
+		seen[v] = true
+		switch x := v.(type) {
+		case *ssa.Phi:
+			for _, e := range x.Edges {
+				visit(e, depth+1)
+			}
+		case *ssa.Slice:
+			if x.High == nil && constIs(x.Low, 1) {
+				n++
+				ok := false
+				g := eng.Guards(x)
+				for _, a := range g {
+					if !a.Pos {
+						continue
+					}
+					if b, isB := a.V.(*ssa.BinOp); isB && b.Op == token.EQL && constIs(b.Y, '~') {
+						ok = true
+					}
+					if strings.HasPrefix(a.Expr, "url.isWindowsPath(") {
+						ok = true
+					}
+					if strings.HasSuffix(a.Expr, fmt.Sprintf(" == %d:Kind)", kinds["Kind_Forwarding"])) {
+						ok = true
+					}
+				}
+				c.Check("R7", "Docker/path-strip-mirrors-format", x.Pos(), ok, "the path loses its first byte only where formatDocker puts it back: '/~…', '/<windows path>', or the ':' of a forwarding endpoint", atomsShort(g))
+			}
+			visit(x.X, depth+1)
+		}
+	}
+	visit(path, 0)
+	if n < 3 {
+		c.Problem("R7", "expected the three first-byte strips of parseDocker (home-relative, Windows, forwarding), found %d", n)
+	}
 }
